@@ -3,5 +3,6 @@ CONSTANTS
   MaxO = 10
   MaxTC = 12
   MaxTL = 8
+  FullTerms = FALSE
 INVARIANT AlgoSatisfiesProperty
 CHECK_DEADLOCK FALSE
